@@ -7,7 +7,7 @@ PROP = dict(
             dict(name="amm-exhaustive", go_test="TestC05Exhaustive", runner="C05", tiers=("thorough",),
                  env=dict(thorough=dict(VERIF_C05_EXH=2))),
             dict(name="amm-exhaustive3", go_test="TestC05Exhaustive", runner="C05", tiers=("thorough",),
-                 env=dict(thorough=dict(VERIF_C05_EXH=3, VERIF_C05_STRIDE=97))),
+                 env=dict(thorough=dict(VERIF_C05_EXH=3, VERIF_C05_STRIDE=397))),
         ],
         rule="case = one call of the real amm package on a fresh order book: 0-12 user orders (types.UserOrder: batch ids 0-3, order ids with collisions, "
              "offer coin exact / +1 / x2 / -1 / half) on ticks around a base price (tick precision 1-4, base prices 10^-6 .. 10^6, 35% in the region "
@@ -15,7 +15,7 @@ PROP = dict(
              "entry points as in keeper/swap.go:672: OrderBook.Match(lastPrice) (55%), FindMatchPrice(book view + pool views)+pool orders at the match price+"
              "MatchAtSinglePrice (15%), MatchAtSinglePrice at a tick (10%), SortOrders+DistributeOrderAmountToOrders on one tick's orders (20%); "
              "6 fixed regression cases first (the C05-F1 witness at three levels). non-trivial = the call produced at least one fill; distinct by digest "
-             "of (entry point, orders, price). thorough adds every book with <=2 orders per side (and every 97th with <=3), amounts 1..6, four "
+             "of (entry point, orders, price). thorough adds every book with <=2 orders per side (and every 397th with <=3), amounts 1..6, four "
              "neighbouring ticks 0.48-0.51, against each tick as last price",
         modelled=["sdk.Int/sdk.Dec 256/315-bit overflow panics (not modelled; amounts < 2^100)",
                   "FindMatchPrice and the pool order generators PoolBuyOrders/PoolSellOrders are NOT modelled: their outputs (match price, pool orders) "
